@@ -70,6 +70,14 @@ func gen(r *hlib.Rand, n int, tier, profile string, emit func(string, ...any)) {
 		k := r.Range(15, 70)
 		add()
 		total++
+		if r.Chance(1, 3) {
+			// rekey boundary on the very first tunnel (its id is 1): inbound traffic on the primary with the counter around
+			// the rehandshake threshold
+			emit("counter 1 %d", hlib.Pick(r, rehandshakeAfter-1, rehandshakeAfter, rehandshakeAfter, rehandshakeAfter+1))
+			emit("in 1")
+			emit("tick 1")
+			total += 3
+		}
 		for i := 0; i < k && total < n; i++ {
 			total++
 			pickIdx := func() int {
